@@ -211,9 +211,71 @@ Definition naming_model (c : str * option str * str * option str * (option str *
         return repr(case)
 
 
+BRACE_SRC = """
+from taskchain import Task, Parameter
+
+class Abc(Task):
+    class Meta:
+        parameters = [Parameter('p')]
+    def run(self, p) -> dict:
+        return {'p': str(p)}
+"""
+
+
+class BraceTexts(Suite):
+    """strings with braces in a configuration built with and without global_vars - placeholders that are defined, braces
+    that name nothing (regular-expression quantifiers, format templates), with and without characters that repr() escapes
+    or re-quotes: the text of the parameter in the key is the one of the release - a string that matched the placeholder
+    pattern is rendered by repr() of its SOURCE text, any other string between single quotes as it is.  Runtime check
+    against that rule written out here."""
+    name = 'brace_texts'
+    model = ''
+    STRINGS = ['\\d{4}', "it's {}", 'part_{}.json', '{X}/data', "{X}'s", '\\w{2,3}-{X}', 'plain', "it's", 'a\\b', '{', '}{', '{}', 'x{X}{Q}\n']
+
+    def gen(self, rng, tier):
+        return [dict(value=v, gv=g, nest=n) for v in self.STRINGS for g in (None, {}, {'X': 'v'}, {'Z': 1}) for n in (False, True)]
+
+    def run_impl(self, case):
+        import sys, types
+        from pathlib import Path
+        from taskchain import Config
+        from .. import pipeline as pl
+        with pl.workspace(dict(classes=[], files={})) as (d, _):
+            name = 'tcv_braces'
+            m = types.ModuleType(name)
+            sys.modules[name] = m
+            try:
+                exec(compile(BRACE_SRC, name, 'exec'), m.__dict__)
+                value = [case['value'], {'k': case['value']}] if case['nest'] else case['value']
+                cfg = Config(Path('data'), name='c', data={'tasks': [f'{name}.Abc'], 'p': value}, global_vars=case['gv'])
+                t = cfg.chain()['abc']
+                return dict(text=t.params.repr, key=t.name_for_persistence)
+            finally:
+                sys.modules.pop(name, None)
+
+    def oracle(self, case, obs):
+        import re, hashlib
+        if 'unexpected_exception' in obs:
+            return f'unexpected exception {obs["unexpected_exception"]}: {obs["text"]}'
+        s = case['value']
+        one = repr(s) if case['gv'] is not None and re.search(r'{(.*?)}', s) else f"'{s}'"
+        want = f"p=[{one}, {{'k': {one}}}]" if case['nest'] else f'p={one}'
+        if obs['text'] != want:
+            return f'{case}: the key text of the parameter is {obs["text"]!r}; by the scheme of the release it is {want!r}'
+        if obs['key'] != hashlib.sha256(f'{want}$$$'.encode()).hexdigest()[:32]:
+            return f'{case}: key {obs["key"]} is not the hash of {want!r}'
+        return None
+
+    def nontrivial(self, case, obs):
+        return '{' in case['value']
+
+    def key(self, case):
+        return repr(case)
+
+
 class C12(Prop):
     pid = 'C12'
-    suites = [Registry(), Keys(), Sha(), NameModeLayout(), Naming()]
+    suites = [Registry(), Keys(), Sha(), NameModeLayout(), Naming(), BraceTexts()]
     trusted_base = ['SHA-256: the Gallina implementation is checked against FIPS vectors (kernel) and hashlib (correspondence)',
                     'the frozen re-implementation harness/tcv/oracle_frozen.py and the golden literals were produced at the pinned commit']
     assumptions = ['parameter mode; name mode (key = config name) is exercised by the C20 harness']
